@@ -15,7 +15,7 @@ func init() {
 			"characters are ASCII",
 			"absence of violations is established on the explored cases only; the listed small shapes are enumerated completely",
 		},
-		LevelText: "Generated-input search against a reference model plus bounded-exhaustive enumeration: ~160 000 (quick) to ~6 million (thorough) alignments, sequence sets and command executions compared with a list model of de-duplication and a multiset model of site compression, and complete enumeration of all alignments over {A,N,-} up to 4x2/3x3 (dedup, both settings) and over {A,C} up to 3x4 (compress). Shows absence of violations on what was explored; the enumerated shapes are complete.",
+		LevelText: "Generated-input search against a reference model plus bounded-exhaustive enumeration: ~160 000 (quick) to ~6 million (thorough) alignments, sequence sets and command executions compared with a list model of de-duplication and a multiset model of site compression, and complete enumeration of all alignments over {A,N,-} up to 4x2/3x3 (dedup, both settings, five kinds of container incl. UNKNOWN alphabet: 279 120 cases; thorough 11.6 million) and over {A,C} up to 3x4 (compress). Shows absence of violations on what was explored; the enumerated shapes are complete.",
 		LevelNote: "trusts the harness's list/multiset models and its minimal FASTA, group-log and weight-file readers",
 		Technique: "property-based testing (rapid): reference model, idempotence, multiset/column-additive invariants; bounded-exhaustive enumeration; command-line differential",
 		DesignRef: "DESIGN.md section 5, C13",
